@@ -64,6 +64,12 @@ AX_CACHE = [
 ]
 
 
+NFVSOf = z3.Function("NFVSOf", T.BNS, M.OptLN.elem.sort(), B)       # the list hits every negative cycle of the network (same symbol as contracts/candidates.py)
+
+
+NamesOf = z3.Function("NamesOf", T.BNS, M.OptLN.elem.sort(), B)      # every element of the list is a variable of the network
+
+
 def normsig_def(N, S, r):
     """definition of NormSig: fold over the key-sorted enumeration of the maximal trap spaces"""
     se = T.SortedEnum(N, T.MaxTrapSet(N, S, r))
@@ -118,6 +124,10 @@ def inv(v, exempt=None, cache=True, allow_empty=False):
                                             M.OptPN.val(v.ppn[i]) == T.RestrictPN(v.pn, v.space[i])))),
         ("I-pbn", z3.ForAll([i], z3.Implies(z3.And(valid(v, i), z3.Not(M.OptBN.is_none(v.pbn[i]))),
                                             M.OptBN.val(v.pbn[i]) == T.PercNetObj(v.net, v.space[i])))),
+        # a cached negative feedback vertex set is one of the node's percolated network (C08: retained sets are built from it)
+        ("I-pnfvs", z3.ForAll([i], z3.Implies(z3.And(valid(v, i), z3.Not(M.OptLN.is_none(v.pnfvs[i]))),
+                                              z3.And(NFVSOf(T.PercNetObj(v.net, v.space[i]), M.OptLN.val(v.pnfvs[i])),
+                                                     NamesOf(T.PercNetObj(v.net, v.space[i]), M.OptLN.val(v.pnfvs[i])))))),
         ("I-parent", z3.ForAll([i], z3.Implies(z3.And(valid(v, i), z3.Not(OptI.is_none(v.parent[i]))), z3.And(
             valid(v, OptI.val(v.parent[i])), T.subspace(v.space[i], v.space[OptI.val(v.parent[i])]))))),
     ]
